@@ -14,8 +14,8 @@ EXTENDS GrLlgr, TraceUtil
 CONSTANTS KF,         \* set of deviations tolerated by the *_KF invariants
           Triage      \* TRUE: additionally sort the traces (see TriStep); no influence on the invariants
 
-VARIABLES l, cfg, h, k, srt, up, capsOf, upAt, eorFrom, weakEver, strongEver, now, obs, hasObs, tri
-tvars == <<l, cfg, h, k, srt, up, capsOf, upAt, eorFrom, weakEver, strongEver, now, obs, hasObs, tri>>
+VARIABLES l, cfg, h, k, srt, up, capsOf, upAt, eorFrom, weakEver, strongEver, syncK, now, obs, hasObs, tri
+tvars == <<l, cfg, h, k, srt, up, capsOf, upAt, eorFrom, weakEver, strongEver, syncK, now, obs, hasObs, tri>>
 
 NoCfg == [gr |-> FALSE, notif |-> FALSE, llgr |-> FALSE, rtlocal |-> 0, deferral |-> 0, restart |-> FALSE]
 FixedCaps(p) ==
@@ -29,7 +29,7 @@ Blank == /\ h = HInit /\ k = HInit
          /\ capsOf = [p \in Nbrs |-> NoCaps]
          /\ upAt = [p \in Nbrs |-> -1]
          /\ eorFrom = [p \in Nbrs |-> [f \in Fams |-> FALSE]]
-         /\ weakEver = [f \in Fams |-> FALSE] /\ strongEver = FALSE
+         /\ weakEver = [f \in Fams |-> FALSE] /\ strongEver = FALSE /\ syncK = FALSE
          /\ now = 0 /\ obs = [none |-> TRUE] /\ hasObs = FALSE
 
 TraceInit == l = 1 /\ cfg = NoCfg /\ Blank /\ tri = [tid |-> 0, bad |-> "", kbad |-> ""]
@@ -42,10 +42,19 @@ TakeObs == /\ now' = T
               ELSE obs' = obs /\ hasObs' = FALSE       \* the speaker ended R's session during this step: see the next line
 
 (* the restarting-speaker bookkeeping, re-evaluated after every input *)
-Sync(up2, caps2, eor2) ==
+(* Deviation "lateeor" (known finding, replayed for the *_KF invariant only): the code looks whether all
+   End-of-RIBs have arrived only when a neighbour that is itself still being withheld sends one, or when a
+   neighbour reaches Established.  CodeDone is the code's own completion test. *)
+CodeDone(up2, caps2, eor2) ==
+  \A q \in Nbrs : IF up2[q] THEN (~(cfg.gr \/ q # "R") \/ q = "O2" \/ ~caps2[q].gr \/ caps2[q].r
+                                    \/ \A f \in Fams : caps2[q].fams[f] => eor2[q][f])
+                   ELSE q \notin GrConfigured(cfg)
+StillHeld(q, t) == ~syncK /\ up[q] /\ t < upAt[q] + 1000 * cfg.deferral
+Sync(up2, caps2, eor2, trigger) ==
   /\ weakEver' = [f \in Fams |-> weakEver[f] \/ WeakDone(cfg, up2, caps2, eor2, f)]
   /\ strongEver' = (strongEver \/ StrongDone(cfg, up2, caps2, eor2))
-SyncSame == Sync(up, capsOf, eorFrom)
+  /\ syncK' = (syncK \/ (trigger /\ CodeDone(up2, caps2, eor2)))
+SyncSame == Sync(up, capsOf, eorFrom, FALSE)
 
 TReset == /\ IsEvent("Reset")
           /\ cfg' = Row.cfg
@@ -55,7 +64,7 @@ TReset == /\ IsEvent("Reset")
           /\ capsOf' = [p \in Nbrs |-> NoCaps]
           /\ upAt' = [p \in Nbrs |-> -1]
           /\ eorFrom' = [p \in Nbrs |-> [f \in Fams |-> FALSE]]
-          /\ weakEver' = [f \in Fams |-> FALSE] /\ strongEver' = FALSE
+          /\ weakEver' = [f \in Fams |-> FALSE] /\ strongEver' = FALSE /\ syncK' = FALSE
           /\ now' = 0 /\ obs' = [none |-> TRUE] /\ hasObs' = FALSE
           /\ tri' = [tid |-> Row.tid, bad |-> "", kbad |-> ""]
 
@@ -64,20 +73,20 @@ TUpR == /\ IsEvent("Up") /\ Row.p = "R" /\ ~h.up
         /\ up' = [up EXCEPT !["R"] = TRUE] /\ capsOf' = [capsOf EXCEPT !["R"] = Row.caps]
         /\ upAt' = [upAt EXCEPT !["R"] = T]
         /\ eorFrom' = [eorFrom EXCEPT !["R"] = [f \in Fams |-> FALSE]]
-        /\ Sync(up', capsOf', eorFrom')
+        /\ Sync(up', capsOf', eorFrom', ~syncK)
         /\ TakeObs /\ UNCHANGED <<cfg, srt>>
 TUpO == /\ IsEvent("Up") /\ Row.p # "R" /\ ~up[Row.p]
         /\ h' = HOther(cfg, h, T, {}) /\ k' = HOther(cfg, k, T, KF)
         /\ up' = [up EXCEPT ![Row.p] = TRUE] /\ capsOf' = [capsOf EXCEPT ![Row.p] = FixedCaps(Row.p)]
         /\ upAt' = [upAt EXCEPT ![Row.p] = T]
         /\ eorFrom' = [eorFrom EXCEPT ![Row.p] = [f \in Fams |-> FALSE]]
-        /\ Sync(up', capsOf', eorFrom')
+        /\ Sync(up', capsOf', eorFrom', ~syncK)
         /\ TakeObs /\ UNCHANGED <<cfg, srt>>
 TLossR == /\ IsEvent("Loss") /\ Row.p = "R" /\ h.up
           /\ h' = HLoss(cfg, h, T, {}, Row.kind) /\ k' = HLoss(cfg, k, T, KF, Row.kind)
           /\ up' = [up EXCEPT !["R"] = FALSE]
           /\ eorFrom' = [eorFrom EXCEPT !["R"] = [f \in Fams |-> FALSE]]
-          /\ Sync(up', capsOf, eorFrom')
+          /\ Sync(up', capsOf, eorFrom', FALSE)
           /\ TakeObs /\ UNCHANGED <<cfg, srt, capsOf, upAt>>
 TAnnR == /\ IsEvent("Ann") /\ Row.p = "R" /\ h.up
          /\ h' = HAnn(cfg, h, T, {}, Row.x, Row.c) /\ k' = HAnn(cfg, k, T, KF, Row.x, Row.c)
@@ -97,7 +106,7 @@ TEor  == /\ IsEvent("Eor") /\ up[Row.p]
          /\ IF Row.p = "R" THEN h' = HEor(cfg, h, T, {}, Row.f) /\ k' = HEor(cfg, k, T, KF, Row.f)
                            ELSE h' = HOther(cfg, h, T, {}) /\ k' = HOther(cfg, k, T, KF)
          /\ eorFrom' = [eorFrom EXCEPT ![Row.p][Row.f] = TRUE]
-         /\ Sync(up, capsOf, eorFrom')
+         /\ Sync(up, capsOf, eorFrom', StillHeld(Row.p, T))
          /\ TakeObs /\ UNCHANGED <<cfg, srt, up, capsOf, upAt>>
 TFail == /\ IsEvent("FailConn") /\ Row.p = "R" /\ ~h.up
          /\ h' = HFailConn(cfg, h, T, {}) /\ k' = HFailConn(cfg, k, T, KF)
@@ -124,7 +133,7 @@ MustHold(f) == cfg.restart /\ ~weakEver[f] /\ now < D1000
 MatchX(g, x, b) ==
   /\ obs.rib[x] = ExpRib(g, srt, x, b)
   /\ obs.adjin[x] = ExpAdjIn(g, x, b)
-  /\ \A p \in Nbrs : (up[p] /\ MustTell(p)) => obs.views[p][x] = ExpView(g, srt, p, x, b)
+  /\ \A p \in Nbrs : (up[p] /\ ~cfg.restart) => obs.views[p][x] = ExpView(g, srt, p, x, b)
 OkX(g, x) == MatchX(g, x, TRUE) \/ (g.rts[x] # NoRoute /\ g.rts[x].opt /\ MatchX(g, x, FALSE))
 Judged(g) == hasObs /\ ~g.taint /\ ~g.edge
 
@@ -143,12 +152,14 @@ Clause(g, x) ==
   CASE g.last = "nonq_pfx"  -> "pfxlimit"
     [] g.last = "failconn"  -> "failconn"
     [] StickyDiffers(g) /\ (g.restarting \/ g.last \in {"nonq", "nonq_nogr", "qual", "qual2", "eor", "up"}) -> "sticky"
+    [] g.llever -> "llgr"            \* a long-lived period has begun earlier in this history
     [] g.last = "nonq_nogr" -> "nogr"
     [] g.last = "nonq"      -> "nonq"
     [] g.last = "qual"      -> "split"
     [] g.last = "qual2" \/ g.second -> "second"
     [] (r # NoRoute /\ r.ls) \/ g.ldl[FamOf(x)] >= 0 -> "llgr"
     [] r = NoRoute /\ g.last = "up"  -> "reup"
+    [] r # NoRoute /\ ~r.stale /\ g.up -> "fresh"
     [] r # NoRoute /\ r.stale /\ obs.adjin[x] = NoRoute -> "early"
     [] r # NoRoute /\ r.stale -> "stale"
     [] OTHER -> "purge"
@@ -178,20 +189,27 @@ C12_PurgeOnReestablish      == Holds(h, "reup")
 C12_PurgeNotEarly           == Holds(h, "early") /\ Holds(h, "failconn")
 (* [P] stale routes stay usable (in the table, advertised) and are marked stale *)
 C12_StaleUsableMarked       == Holds(h, "stale")
-(* [P] gone exactly at the restart-timer expiry / on all End-of-RIBs; re-announced routes are fresh *)
+(* [P] "re-announced ones are fresh": what R announced in its current session is in the tables, unmarked,
+   whatever timer of the earlier restart expires *)
+C12_ReannouncedAreFresh     == Holds(h, "fresh")
+(* [P] gone exactly at the restart-timer expiry / on all End-of-RIBs *)
 C12_PurgeExactlyWhen        == Holds(h, "purge")
 (* nothing outside what the neighbours validly announced is ever installed or advertised *)
 C12_NoForeignRoutes         == Judged(h) => obs.extra = <<>>
 
 (* [P] as the restarting speaker nothing is advertised until every GR neighbour sent End-of-RIB or the
-   deferral timer fires; then everything is (MatchX above, through MustTell) *)
-C12_DeferralWithholds ==
-  (hasObs /\ cfg.restart) =>
-     \A x \in Prefixes : \A p \in Nbrs :
-        /\ (up[p] /\ MustHold(FamOf(x))) => obs.views[p][x] = NoRoute
-        /\ (up[p] /\ ~MustTell(p) /\ ~h.taint /\ ~h.edge) =>
-              (obs.views[p][x] = NoRoute \/ obs.views[p][x] = ExpView(h, srt, p, x, TRUE)
-               \/ (h.rts[x] # NoRoute /\ h.rts[x].opt /\ obs.views[p][x] = ExpView(h, srt, p, x, FALSE)))
+   deferral timer fires; then everything is.  tell(p): is p required to hold the normal export now *)
+ViewOk(p, x) == \/ obs.views[p][x] = ExpView(h, srt, p, x, TRUE)
+                \/ (h.rts[x] # NoRoute /\ h.rts[x].opt /\ obs.views[p][x] = ExpView(h, srt, p, x, FALSE))
+Deferral(tell(_)) ==
+  (hasObs /\ cfg.restart /\ ~h.taint /\ ~h.edge) =>
+     \A x \in Prefixes : \A p \in Nbrs : up[p] =>
+        /\ MustHold(FamOf(x)) => obs.views[p][x] = NoRoute
+        /\ tell(p) => ViewOk(p, x)
+        /\ (obs.views[p][x] = NoRoute \/ ViewOk(p, x))
+C12_DeferralWithholds == Deferral(MustTell)
+MustTellK(p) == syncK \/ (upAt[p] >= 0 /\ now > upAt[p] + D1000)
+C12_DeferralWithholds_KF == Deferral(MustTellK)
 
 (* ---- known findings: the same clauses judged against the history replayed with the deviations KF ---- *)
 HoldsK(cl) == Judged(k) => \A x \in Prefixes : Clause(h, x) = cl => OkX(k, x)
@@ -205,6 +223,7 @@ C12_LlgrDepreferencedAndRestricted_KF == HoldsK("llgr")
 C12_PurgeOnReestablish_KF      == HoldsK("reup")
 C12_PurgeNotEarly_KF           == HoldsK("early") /\ HoldsK("failconn")
 C12_StaleUsableMarked_KF       == HoldsK("stale")
+C12_ReannouncedAreFresh_KF     == HoldsK("fresh")
 C12_PurgeExactlyWhen_KF        == HoldsK("purge")
 C12_NoForeignRoutes_KF         == Judged(k) => (obs.extra = <<>> \/ k.over)
 
@@ -224,6 +243,7 @@ FirstBad ==
     [] ~C12_SecondLoss -> "C12_SecondLoss"
     [] ~C12_LlgrDepreferencedAndRestricted -> "C12_LlgrDepreferencedAndRestricted"
     [] ~C12_StaleUsableMarked -> "C12_StaleUsableMarked"
+    [] ~C12_ReannouncedAreFresh -> "C12_ReannouncedAreFresh"
     [] ~C12_PurgeExactlyWhen -> "C12_PurgeExactlyWhen"
     [] ~C12_NoForeignRoutes -> "C12_NoForeignRoutes"
     [] ~C12_DeferralWithholds -> "C12_DeferralWithholds"
@@ -239,9 +259,10 @@ FirstBadK ==
     [] ~C12_SecondLoss_KF -> "C12_SecondLoss_KF"
     [] ~C12_LlgrDepreferencedAndRestricted_KF -> "C12_LlgrDepreferencedAndRestricted_KF"
     [] ~C12_StaleUsableMarked_KF -> "C12_StaleUsableMarked_KF"
+    [] ~C12_ReannouncedAreFresh_KF -> "C12_ReannouncedAreFresh_KF"
     [] ~C12_PurgeExactlyWhen_KF -> "C12_PurgeExactlyWhen_KF"
     [] ~C12_NoForeignRoutes_KF -> "C12_NoForeignRoutes_KF"
-    [] ~C12_DeferralWithholds -> "C12_DeferralWithholds"
+    [] ~C12_DeferralWithholds_KF -> "C12_DeferralWithholds_KF"
     [] OTHER -> ""
 TriStep ==
   IF ~Triage THEN tri' = tri
